@@ -17,12 +17,12 @@ import (
 )
 
 type c18Action struct {
-	Kind    string `json:"kind"` // prestate | validate-file | validate-stdout | generate | normalize | compile | bad-args | unknown-command
-	P       int    `json:"p"`
-	D       int    `json:"d"`
-	Pre     string `json:"pre,omitempty"`  // absent | empty | bytes | previous-long-report | readonly | directory
-	Bytes   []byte `json:"bytes,omitempty"`
-	Args    []string `json:"args,omitempty"`
+	Kind  string   `json:"kind"` // prestate | validate-file | validate-stdout | generate | normalize | compile | bad-args | unknown-command
+	P     int      `json:"p"`
+	D     int      `json:"d"`
+	Pre   string   `json:"pre,omitempty"` // absent | empty | bytes | previous-long-report | readonly | directory
+	Bytes []byte   `json:"bytes,omitempty"`
+	Args  []string `json:"args,omitempty"`
 }
 
 type c18Case struct {
